@@ -1195,6 +1195,19 @@ impl<K, V, S> HashMap<K, V, S> {
     }
 }
 
+#[cfg(feature = "verif-hooks")]
+impl<K, V, S> HashMap<K, V, S> {
+    /// Internal bookkeeping, for the external verification harness.
+    pub fn verif_state(&self) -> crate::VerifState {
+        self.table.verif_state()
+    }
+
+    /// Keys still to be moved out of the old table, in the order they will be moved.
+    pub fn verif_old_keys(&self, limit: usize, mut f: impl FnMut(&K)) {
+        self.table.verif_old_in_cursor_order(limit, |kv| f(&kv.0));
+    }
+}
+
 impl<K, V, S> PartialEq for HashMap<K, V, S>
 where
     K: Eq + Hash,
